@@ -16,12 +16,19 @@ What is proved
   3b. whitelist_cache_coherent / whitelist_restart_invisible — the whitelisted-fee list of Policy (separate
      component, Model/Ledger/Whitelist.lean) is restart-transparent for all operation sequences (since fix cb24446
      a re-set overwrites the cached entry; whitelist_restart_regression_witness is the history that diverged before).
+  3c. components (Model/Ledger/Components.lean): settings / whitelist / designate / management `_cache_coherent` — after
+     any sequence of blocks (halting, faulting, rolled-back transactions) and restarts the cache is exactly
+     InitializeCache(storage); gasPerVote lookup coherence; all_natives_schedule_independent lifts the main
+     theorem to the product of all modelled natives. settings_ro_write_breaks_coherence shows what the layer
+     discipline (writes through GetRWCache only; obligation cache_writes_disciplined) protects against.
   4. map_ranges_classified — every iteration over a Go map found by the extractor in the consensus-critical
      packages is classified (regenerated table, `decide`).
 -/
 import NeoModel.Proofs.LedgerAdequate
 import NeoModel.Proofs.LedgerWhitelist
+import NeoModel.Proofs.LedgerProduct
 import NeoModel.Generated.MapRanges
+import NeoModel.Generated.CacheWrites
 namespace NeoModel.Ledger
 
 section generic
@@ -225,6 +232,117 @@ example : chargedFee (run empty [.set (1, 0) 7, .set (2, 0) 9, .remove (1, 0), .
 end Whitelist
 
 -- ---------------------------------------------------------------------------------------------
+-- cached components of the other natives
+
+namespace Components
+open Comp
+
+/-- (C01, cache_coherent: Policy attribute fees / MaxValidUntilBlockIncrement / MaxTraceableBlocks /
+    MillisecondsPerBlock, Notary MaxNotValidBeforeDelta, Oracle price, NEO register price) After any sequence of
+    blocks — transactions that halt, panic half-way or are rolled back as a whole — and restarts, the settings
+    cache is exactly InitializeCache(storage). -/
+theorem settings_cache_coherent (steps : List (CStep { o : SetOp // o.disciplined = true }))
+    (n : CNode (List (Nat × Int)) (List (Nat × Int))) (h : n.cache = settingsRW.init n.store) :
+    (settingsRW.crun n steps).cache = settingsRW.init (settingsRW.crun n steps).store :=
+  cache_coherent settingsRW settingsRW_exact steps n h
+
+/-- (C01, cache_coherent: Policy whitelisted fees as a layered component) -/
+theorem whitelist_component_cache_coherent (steps : List (CStep WlOp)) (n : CNode (List (WKey × Int)) (List (WKey × Int)))
+    (h : n.cache = whitelist.init n.store) :
+    (whitelist.crun n steps).cache = whitelist.init (whitelist.crun n steps).store :=
+  cache_coherent whitelist whitelist_exact steps n h
+
+/-- (C01, cache_coherent: RoleManagement) The cache always holds, per role, the stored record with the greatest
+    activation height — what InitializeCache reads (independent of the block height at which the node restarts). -/
+theorem designate_cache_coherent (steps : List (CStep RoleOp)) (n : CNode RoleStore RoleCache)
+    (h : n.cache = designate.init n.store) :
+    (designate.crun n steps).cache = designate.init (designate.crun n steps).store :=
+  cache_coherent designate designate_exact steps n h
+
+/-- (C01, cache_coherent: ContractManagement contract records; the next contract id lives in storage only) -/
+theorem management_cache_coherent (steps : List (CStep MgmtOp)) (n : CNode MgmtStore (List (Nat × (Int × Nat))))
+    (h : n.cache = management.init n.store) :
+    (management.crun n steps).cache = management.init (management.crun n steps).store :=
+  cache_coherent management management_exact steps n h
+
+/-- (C01∩C04, why the layer discipline matters) A setter writing the cache obtained with GetROCache survives the
+    rollback of its transaction: cache says 5, storage has nothing. No such write exists in the code
+    (obligation `cache_writes_disciplined` over the regenerated table). -/
+theorem settings_ro_write_breaks_coherence :
+    let n := settings.crun { store := [], cache := [], height := 0 } [.block [{ ops := [.setViaRO 1 5], halts := false }]]
+    aget n.cache 1 = some 5 ∧ aget n.store 1 = none :=
+  settings_ro_write_witness
+
+/-- (C01, cache_coherent: NEO gasPerVoteCache, a partial cache that is empty after a restart) After any sequence
+    of writes, candidate drops and restarts the reward-per-vote a node reads (cache first, then storage) is the
+    stored one. -/
+theorem gasPerVote_cache_coherent (ops : List GpvOp) (k : Nat) :
+    gpvLookup (gpvRun { store := [], cache := [] } ops) k = (aget (gpvRun { store := [], cache := [] } ops).store k).getD 0 :=
+  gpvLookup_stored _ (gpvRun_coherent ops _ (by intro k v h; simp [aget] at h)) k
+
+/-- (C01, cache_coherent: NEO gasPerBlock records, partial) With at most one setGasPerBlock per block (strictly
+    increasing block indices) the append-only cache is exactly what InitializeCache reads back from storage.
+    FULL statement: for every index, GetGASPerBlock answers alike before and after a restart, also when a block
+    sets the value twice (the cache then holds two records of the same index, storage one; the backward search
+    still finds the newest). Missing: the proof for duplicate indices (covered by the stream and the search). -/
+theorem gasPerBlock_cache_coherent_partial (ops : List (Nat × Int)) (h : Increasing 0 ops) :
+    (gpbRestart (gpbFold { store := [], cache := [] } ops)).cache = (gpbFold { store := [], cache := [] } ops).cache :=
+  gpbFold_inv ops _ 0 ⟨rfl, fun _ he => by simp at he⟩ List.Pairwise.nil h
+
+example : Increasing 0 [(0, 5), (3, 7), (9, 1)] ∧
+    gpbLookup (gpbFold { store := [], cache := [] } [(0, 5), (3, 7), (9, 1)]).cache 6 = some 7 :=
+  ⟨by simp [Increasing], by decide⟩
+
+-- two sets in one block: cache and restarted cache differ as lists, every lookup agrees
+example : let g := gpbFold { store := [], cache := [] } [(0, 5), (3, 7), (3, 8)]
+    g.cache ≠ (gpbRestart g).cache ∧ gpbLookup g.cache 4 = some 8 ∧ gpbLookup (gpbRestart g).cache 4 = some 8 := by decide
+
+example : (designate.crun { store := [], cache := designate.init [], height := 0 }
+    [.block [{ ops := [.designate 8 [1, 2]], halts := true }, { ops := [.designate 4 [3]], halts := false }],
+     .restart, .block [{ ops := [.designate 8 [5]], halts := true }]]).cache
+    = [(4, none), (8, some (3, [5])), (16, none), (32, none)] := by decide
+
+example : (management.crun { store := { contracts := [], nextId := 1 }, cache := [], height := 0 }
+    [.block [{ ops := [.deploy 7], halts := true }, { ops := [.deploy 9], halts := false }, { ops := [.deploy 9, .update 9], halts := true }],
+     .restart]).store = { contracts := [(9, (2, 1)), (7, (1, 0))], nextId := 3 } := by decide
+
+end Components
+
+namespace Natives
+open Components
+
+/-- (C01 for ALL modelled natives) Policy fees + blocked list + NEO governance, the settings of Policy / Notary /
+    Oracle / NEO, the whitelisted fees, RoleManagement and ContractManagement side by side in one node: any two
+    schedules of addBlock/flush/restart/gc/poolTx with the same blocks give the same observation (storage of every
+    component, per-transaction results, every cache's answers), for every committee configuration and every initial
+    contents of the component storages. -/
+theorem all_natives_schedule_independent (cfg : Cfg) (holder : Acct)
+    (s0 : List (Nat × Int)) (w0 : List (WKey × Int)) (r0 : RoleStore) (m0 : MgmtStore)
+    (σ₁ σ₂ : List (Step Unit (List Tx × List (CTx { o : SetOp // o.disciplined = true }) × List (CTx WlOp) × List (CTx RoleOp) × List (CTx MgmtOp)) Unit))
+    (hb : blocksOf σ₁ = blocksOf σ₂) :
+    observe (allSys cfg) (run (allSys cfg) (allGenesisNode cfg holder s0 w0 r0 m0) σ₁) =
+    observe (allSys cfg) (run (allSys cfg) (allGenesisNode cfg holder s0 w0 r0 m0) σ₂) := by
+  have hg := allGenesis_good cfg holder s0 w0 r0 m0
+  have hs : stateView (allSys cfg) (allGenesisNode cfg holder s0 w0 r0 m0).read = (allGenesisNode cfg holder s0 w0 r0 m0).read :=
+    stateView_toSys _ _ _
+  have h0 : Sim (allSys cfg) (UGood (AllGood cfg)) (allGenesisNode cfg holder s0 w0 r0 m0) (allGenesisNode cfg holder s0 w0 r0 m0) :=
+    ⟨rfl, rfl, rfl, by rw [hs]; exact hg, by rw [hs]; exact hg⟩
+  exact observe_independent_of_schedule (allSys cfg) ((allU_adequate cfg).toAdequate allDefault) _ _ h0 σ₁ σ₂ hb
+
+-- non-vacuity: the regression history for the natives, a designation and a deployment next to it, a restart in
+-- the middle of one schedule only
+example :
+    let blkA : List Tx × List (CTx { o : SetOp // o.disciplined = true }) × List (CTx WlOp) × List (CTx RoleOp) × List (CTx MgmtOp) :=
+      ([], [{ ops := [⟨.set 1 7, rfl⟩], halts := true }], [], [{ ops := [.designate 8 [1]], halts := true }], [{ ops := [.deploy 5], halts := true }])
+    observe (allSys wCfg) (run (allSys wCfg) (allGenesisNode wCfg wHolder [] [] [] { contracts := [], nextId := 1 })
+        [Step.addBlock blkA, Step.restart, Step.addBlock blkA, Step.flush]) =
+    observe (allSys wCfg) (run (allSys wCfg) (allGenesisNode wCfg wHolder [] [] [] { contracts := [], nextId := 1 })
+        [Step.addBlock blkA, Step.addBlock blkA]) :=
+  all_natives_schedule_independent wCfg wHolder _ _ _ _ _ _ (by rfl)
+
+end Natives
+
+-- ---------------------------------------------------------------------------------------------
 -- generated-fact obligation: iteration over Go maps
 
 /-- why a `range` over a Go map cannot make two replicas disagree. -/
@@ -285,5 +403,50 @@ theorem map_ranges_classified :
 
 example : classOfRange "pkg/core/mpt/batch.go:MapToMPTBatch:m" = some MapRangeClass.sortedAfter := by decide
 example : Generated.MapRanges.table.length ≥ 20 := by decide
+
+-- ---------------------------------------------------------------------------------------------
+-- generated-fact obligation: the layer discipline of native cache writes (C01∩C04)
+
+/-- helpers that write to a cache object they are given; every call site is itself a row of the table
+    (`call <helper>`) and must pass a copy-on-write or a fresh cache -/
+def cacheWriteHelpers : List String := [
+  "copyDesignationCache", "copyNeoCache", "copyNotaryCache", "copyOracleCache", "copyPolicyCache",
+  "DesignationCache.Copy", "NeoCache.Copy", "NotaryCache.Copy", "OracleCache.Copy", "PolicyCache.Copy",
+  "Policy.fillCacheFromDAO", "NEO.updateCache", "NEO.updateCachedNewEpochValues", "NEO.dropCandidateIfZero",
+  "Designate.updateCachedRoleData", "updateContractCache"]
+
+/-- helpers that only read the cache they are given (a read-only cache may be passed) -/
+def cacheReadOnlyCalls : List String := ["call getCachedRoleData", "call getContract", "call isBlockedInternal"]
+
+/-- reviewed exceptions: (function, target, source) -/
+def cacheWriteExceptions : List (String × String × String) := [
+  -- `cache` starts as GetROCache and is replaced by GetRWCache before the first write (`if !isCacheRW`), native_neo.go:541-545, 566-568
+  ("NEO.PostPersist", "NeoCache.gasPerVoteCache", "ro+rw"),
+  ("NEO.PostPersist", "call updateCachedNewEpochValues", "ro+rw"),
+  -- `v` points into the cache passed as parameter (see cacheWriteHelpers)
+  ("Designate.updateCachedRoleData", "roleData.addr", "field-of-cache+zero"),
+  ("Designate.updateCachedRoleData", "roleData.height", "field-of-cache+zero"),
+  ("Designate.updateCachedRoleData", "roleData.nodes", "field-of-cache+zero"),
+  -- `var cache *ManagementCache`, assigned from GetRWCache before its first use
+  ("Management.OnPersist", "call getContract", "rw+zero"),
+  ("Management.OnPersist", "call updateContractCache", "rw+zero")]
+
+def cacheWriteOk (r : String × String × String × String) : Bool :=
+  r.2.2.2 == "rw" || r.2.2.2 == "new" ||
+  (r.2.2.2 == "param" && cacheWriteHelpers.contains r.2.1) ||
+  (r.2.2.2 == "ro" && cacheReadOnlyCalls.contains r.2.2.1) ||
+  cacheWriteExceptions.contains (r.2.1, r.2.2.1, r.2.2.2)
+
+set_option maxRecDepth 100000 in
+/-- (C01∩C04, generated-fact obligation) Every write to a field of a native cache found by the extractor in
+    pkg/core/native goes to a cache object obtained with GetRWCache (copy-on-write: a rolled-back transaction
+    leaves no trace) or freshly allocated, or is a reviewed helper/exception; in particular no method writes
+    through GetROCache — the assumption `noLeak` of the component theorems. -/
+theorem cache_writes_disciplined : Generated.CacheWrites.table.all cacheWriteOk = true := by decide
+
+-- a write through the read-only accessor would break it
+example : cacheWriteOk ("pkg/core/native/policy.go", "Policy.setWhitelistFeeContract", "PolicyCache.whitelistedContracts", "ro") = false := by decide
+set_option maxRecDepth 100000 in
+example : Generated.CacheWrites.table.length ≥ 100 := by decide
 
 end NeoModel.Ledger
